@@ -25,6 +25,9 @@ def run(chk):
     n2 = S.general_arm(chk, lib, 'R2.4', 'R2.4', 3, only_interior=True)
     chk.floor('R2.4', 'tridiagonal systems extracted', n1 + n2, 49)
     S.check_thomas(chk, lib, 'R2.5')
+    chk.rule('R2.6', "Periodic: the rows of the condensed cyclic system (row 0, the last condensed row whose k[n-2] coefficient sits in the second right-hand side, the closing row) are "
+                     "the same C2 stencil instantiated cyclically, and the condensation is consistent - the C2 conditions at the knots next to the wrap-around")
+    S.check_periodic(chk, lib, 'R2.6', 'R2.6')
     chk.explanation = ("The spline code is decided over the reals by exact polynomial identities on kernels extracted from the typed tree: the piece "
                        "formula interpolates and is cubic; a, b as written make the piece's end slopes the solved k (C1); every interior row of the "
                        "system is the C2 condition (its functional annihilates cubics and the truncated power); the Thomas solver is checked as one "
